@@ -170,6 +170,9 @@ def _case(top, alt, cmd, root=0):
             uid_dir = real + '/1000'
             nodes += K.trashed(uid_dir, 'sec', 'd/secret', '2019-01-01T00:00:00', 'file', 2000)
             nodes += K.trashed(uid_dir, 'sed', 'd/secretdir', '2019-01-02T00:00:00', 'dir', 2020)
+            # orphans: payloads without a .trashinfo (trash-empty sweeps them in a trash dir it may use)
+            nodes += [W.f(uid_dir + '/files/orphan', 'ORPHAN', 0o644, 2050), W.d(uid_dir + '/files/orphandir'),
+                      W.f(uid_dir + '/files/orphandir/in', 'OIN', 0o644, 2051)]
         if ALT[alt] == 'dir-populated':
             nodes += K.trashed('/v/.Trash-1000', 'pub', 'd/public', '2019-01-03T00:00:00', 'file', 2100)
         elif ALT[alt] == 'file':
